@@ -15,8 +15,8 @@ pub enum Strategy {
     DfsSym,
     /// on-demand, `run_to_completion()` sent right after spawning
     OnDemand,
-    /// on-demand: `check_fingerprint(init_states[k % len])` first, then `run_to_completion()` (the control
-    /// channel is FIFO, so the request is handled before the run to completion starts)
+    /// on-demand: `check_fingerprint(<unknown>)`, `check_fingerprint(init_states[k % len])`, then `run_to_completion()`
+    /// (the control channel is FIFO, so the requests are handled before the run to completion starts)
     OnDemandProbe(usize),
     /// simulation with the uniform chooser
     SimUniform(u64),
@@ -297,6 +297,10 @@ pub fn run_case(m: &GraphModel, cfg: &Config) -> Obs {
         Strategy::OnDemand => finish_run(b.spawn_on_demand(), true, &rec),
         Strategy::OnDemandProbe(k) => {
             let c = b.spawn_on_demand();
+            // first a request for a fingerprint no state has (a no-op that every worker must still take off its queue)
+            if let Some(f) = std::num::NonZeroU64::new(crate::hooks::fingerprint_of(&0xDEADu64)) {
+                c.check_fingerprint(f);
+            }
             if !m.inits.is_empty() {
                 let s = m.inits[*k % m.inits.len()];
                 if let Some(f) = std::num::NonZeroU64::new(crate::hooks::fingerprint_of(&s)) {
